@@ -14,6 +14,11 @@ extern const handle_type HANDLE_INVALID;
 // Sets the `FD_CLOEXEC` flag on the file descriptor. POSIX only.
 int handle_cloexec(handle_type handle, bool enable);
 
+// Moves `handle` to a file descriptor above the standard streams (0-2) if it
+// isn't already. Newly created file descriptors land on 0-2 when the parent
+// process has closed one of its standard streams. POSIX only.
+int handle_above_stdio(handle_type *handle);
+
 // Closes `handle` if it is not an invalid handle and returns an invalid handle.
 // Does not overwrite the last system error if an error occurs while closing
 // `handle`.
